@@ -109,6 +109,8 @@ type tableSpec struct {
 	rowPkg   string
 	rowType  string
 	keyField string
+	keyFields []string // composite key (field paths); keyLower[i]: component i is lower-cased
+	keyLower  []bool
 	lower    bool // key is lower-cased
 	single   bool // singleton table (key is a constant)
 	emptyKeyFails bool // the id indexer rejects an empty key (reads and writes fail)
@@ -127,7 +129,11 @@ func addTable(t *tableSpec) {
 
 func init() {
 	addTable(&tableSpec{name: "kvs", rowPkg: structsPkg, rowType: "DirEntry", keyField: "Key", emptyKeyFails: true,
-		indexes: map[string]indexSpec{"id_prefix": {kind: "prefix"}, "session": {kind: "fieldeq", field: "Session"}}})
+		indexes: map[string]indexSpec{"id_prefix": {kind: "prefix"}, "session": {kind: "fieldeq", field: "Session", lower: true}}})
+	addTable(&tableSpec{name: "session_checks", rowPkg: statePkg, rowType: "sessionCheck", keyFields: []string{"Node", "CheckID.ID", "Session"}, keyLower: []bool{true, true, false},
+		indexes: map[string]indexSpec{"session": {kind: "fieldeq", field: "Session", lower: true}}})
+	addTable(&tableSpec{name: "prepared-queries", rowPkg: statePkg, rowType: "queryWrapper", keyField: "PreparedQuery.ID", lower: true,
+		indexes: map[string]indexSpec{"session": {kind: "fieldeq", field: "PreparedQuery.Session", lower: true}}})
 	addTable(&tableSpec{name: "tombstones", rowPkg: statePkg, rowType: "Tombstone", keyField: "Key", emptyKeyFails: true,
 		indexes: map[string]indexSpec{"id_prefix": {kind: "prefix"}}})
 	addTable(&tableSpec{name: "connect-ca-config", rowPkg: structsPkg, rowType: "CAConfiguration", single: true})
@@ -195,27 +201,89 @@ func (f *Frame) tableAccessor(st *State, e *ast.CallExpr, name string) *Term {
 
 // rowKey returns the (normalised) primary key of the row object ref.
 func (f *Frame) rowKey(st *State, t *tableSpec, ref *Term) *Term {
-	rt := f.eng.lookupType(t.rowPkg, t.rowType)
-	si := f.c.structInfo(rt)
-	idx, ok := si.byName[t.keyField]
-	if !ok {
-		panic(unsupported{"table " + t.name + ": no key field " + t.keyField})
+	c := f.c
+	if len(t.keyFields) == 0 {
+		k := f.rowField(st, t, ref, t.keyField)
+		if t.lower {
+			k = c.strLower(k)
+		}
+		return k
 	}
-	k := f.load(st, LHeapField{ref: ref, st: rt, idx: idx})
-	if t.lower {
-		k = f.c.strLower(k)
+	// composite key: an injective tuple of the (normalised) components
+	var parts []*Term
+	for i, kf := range t.keyFields {
+		v := f.rowField(st, t, ref, kf)
+		if v.Sort != SStr {
+			panic(unsupported{"table " + t.name + ": key component " + kf + " is not a string"})
+		}
+		if i < len(t.keyLower) && t.keyLower[i] {
+			v = c.strLower(v)
+		}
+		parts = append(parts, v)
 	}
-	return k
+	return c.tupleKey(parts)
 }
 
-func (f *Frame) rowField(st *State, t *tableSpec, ref *Term, field string) *Term {
-	rt := f.eng.lookupType(t.rowPkg, t.rowType)
-	si := f.c.structInfo(rt)
-	idx, ok := si.byName[field]
-	if !ok {
-		panic(unsupported{"table " + t.name + ": no field " + field})
+// tupleKey: injective encoding of n strings as one key (uninterpreted, with projection axioms)
+func (c *Ctx) tupleKey(parts []*Term) *Term {
+	n := len(parts)
+	sorts := make([]Sort, n)
+	for i := range sorts {
+		sorts[i] = SStr
 	}
-	return f.load(st, LHeapField{ref: ref, st: rt, idx: idx})
+	name := fmt.Sprintf("tuple%d", n)
+	first := !c.declared["fun:"+name]
+	fn := c.declareFun(name, sorts, SStr)
+	if first {
+		var vs, vd []string
+		for i := 0; i < n; i++ {
+			vs = append(vs, fmt.Sprintf("x%d", i))
+			vd = append(vd, fmt.Sprintf("(x%d Str)", i))
+		}
+		app := "(" + fn + " " + strings.Join(vs, " ") + ")"
+		for i := 0; i < n; i++ {
+			pj := c.declareFun(fmt.Sprintf("%s!proj%d", name, i), []Sort{SStr}, SStr)
+			c.decls = append(c.decls, fmt.Sprintf("(assert (forall (%s) (! (= (%s %s) x%d) :pattern (%s))))", strings.Join(vd, " "), pj, app, i, app))
+		}
+		c.decls = append(c.decls, fmt.Sprintf("(assert (forall (%s) (! (not (= %s strEmpty)) :pattern (%s))))", strings.Join(vd, " "), app, app))
+	}
+	return App(fn, SStr, parts...)
+}
+
+// rowField reads a (possibly dotted, pointer-traversing) field path of the row object.
+func (f *Frame) rowField(st *State, t *tableSpec, ref *Term, path string) *Term {
+	var cur types.Type = f.eng.lookupType(t.rowPkg, t.rowType)
+	v := ref // a pointer to cur
+	isPtr := true
+	var sval *Term
+	for _, name := range strings.Split(path, ".") {
+		stt, ok := types.Unalias(cur).Underlying().(*types.Struct)
+		if !ok {
+			panic(unsupported{"table " + t.name + ": " + path + " traverses a non-struct"})
+		}
+		si := f.c.structInfo(cur)
+		idx, ok := si.byName[name]
+		if !ok {
+			panic(unsupported{"table " + t.name + ": no field " + name})
+		}
+		var fv *Term
+		if isPtr {
+			fv = f.load(st, f.fieldLoc(v, cur, idx))
+		} else {
+			fv = f.c.fieldGet(sval, si, idx)
+		}
+		ft := stt.Field(idx).Type()
+		if el, p := deref(ft); p {
+			cur, v, isPtr = el, fv, true
+		} else {
+			cur, sval, isPtr = ft, fv, false
+			v = fv
+		}
+	}
+	if isPtr {
+		return v
+	}
+	return sval
 }
 
 // rowWellFormed / tableWF: table well-formedness, assumed for every table state (A-MEMDB-ROWS): a stored row is
@@ -240,7 +308,8 @@ func (f *Frame) tableWF(st *State, t *tableSpec) {
 		c.inQuant--
 		body = Forall([]*Term{k}, Implies(Ne(r, IntLit(0)), And(Select(al, r), Eq(key, k))), r)
 	}
-	if t.emptyKeyFails {
+	if !t.single {
+		// the id indexers reject an empty key, so no row is ever filed under it
 		body = And(body, Eq(Select(tb, Sym("strEmpty", SStr)), IntLit(0)))
 	}
 	// cache by the text of the formula modulo the bound variable's name
@@ -320,7 +389,18 @@ func (f *Frame) varArg(st *State, e *ast.CallExpr, packed *Term, fixed int, i in
 
 // argKey computes the normalised lookup key from a query argument of static type at.
 func (f *Frame) argKey(st *State, t *tableSpec, v *Term, at types.Type, n ast.Node) *Term {
-	c := f.c
+	if rt := f.eng.tableRowType(t); rt != nil && types.Identical(types.Unalias(at), rt) && (len(t.keyFields) > 0 || strings.Contains(t.keyField, ".")) {
+		return f.rowKey(st, t, v)
+	}
+	k := f.argString(st, v, at, n)
+	if t.lower {
+		k = f.c.strLower(k)
+	}
+	return k
+}
+
+// argString: the string a query argument denotes (a string, or a value with an IDValue() string method).
+func (f *Frame) argString(st *State, v *Term, at types.Type, n ast.Node) *Term {
 	var k *Term
 	switch {
 	case v.Sort == SStr:
@@ -361,9 +441,6 @@ func (f *Frame) argKey(st *State, t *tableSpec, v *Term, at types.Type, n ast.No
 		rs := f.inlineFunc(st, fi, recv, nil, n)
 		k = rs[0]
 	}
-	if t.lower {
-		k = c.strLower(k)
-	}
 	return k
 }
 
@@ -398,13 +475,11 @@ func (f *Frame) memdbLookup(st *State, e *ast.CallExpr, args []*Term) (*Term, *T
 		}
 		return r, TFalse
 	case "fieldeq":
-		v, _, ok := f.varArg(st, e, packed, 2, 0)
+		v, at, ok := f.varArg(st, e, packed, 2, 0)
 		if !ok {
 			f.fail(e, "First on field index without argument")
 		}
-		if v.Sort != SStr {
-			f.fail(e, "field index argument must be a string")
-		}
+		v = f.argString(st, v, at, e)
 		if ix.lower {
 			v = c.strLower(v)
 		}
@@ -585,10 +660,11 @@ func modelGet(f *Frame, st *State, e *ast.CallExpr, recv *Term, args []*Term, si
 			return c.prefixOf(p, key)
 		}
 	case "fieldeq":
-		v, _, ok := f.varArg(st, e, args[2], 2, 0)
-		if !ok || v.Sort != SStr {
-			f.fail(e, "Get on field index needs one string argument")
+		v, at, ok := f.varArg(st, e, args[2], 2, 0)
+		if !ok {
+			f.fail(e, "Get on field index needs one argument")
 		}
+		v = f.argString(st, v, at, e)
 		if ix.lower {
 			v = c.strLower(v)
 		}
